@@ -19,7 +19,7 @@ from sim import aioloop as A
 from sim.adata import Events, PrivateFault, make_async_data
 from sim.aioloop import GATE_DELAYS
 from sim.envs import clear_process_caches
-from sim.core import Outcome, digest, exc_key, scrub
+from sim.core import native_text, Outcome, digest, exc_key, scrub
 from sim.envs import AE_MODES, CodeMemo
 from sim.tape import Tape
 from sim.workload import Gen
@@ -84,6 +84,16 @@ def _make_env(P, ae: int, lc: bool, cache_size: int, tape: Tape):
         except Exception:
             return 2
 
+    @jinja2.pass_context
+    async def gcx(ctx, name):
+        # reads a variable of the calling frame back AFTER suspending
+        await asyncio.sleep(GATE_DELAYS[tape.draw(len(GATE_DELAYS), "g")])
+        return ctx.resolve(name)
+
+    from sim.workload import StrObj
+
+    env.globals["gcx"] = gcx
+    env.globals["gso"] = StrObj("G!")
     env.globals["gf"] = gf
     env.globals["gn"] = 3
     env.globals["gd"] = {"k1": 1, "k2": [2]}
@@ -93,15 +103,18 @@ def _make_env(P, ae: int, lc: bool, cache_size: int, tape: Tape):
 TG: dict = {}
 
 
-async def _render(env, entry: str, api: int, data: dict, fault_exc):
+async def _render(env, entry: str, api: int, data: dict, fault_exc, gate_tape=None):
     try:
         tmpl = env.get_template(entry, globals={"tg": TG[entry]} if entry in TG else None)
         if api == 0:
             r_ = await tmpl.render_async(**data)
-            return ("ok", scrub(r_ if isinstance(r_, str) else "native:" + type(r_).__name__ + ":" + repr(r_)))
+            return ("ok", scrub(native_text(r_)))
         chunks = []
         async for c in tmpl.generate_async(**data):
             chunks.append(c)
+            if gate_tape is not None and gate_tape.draw(3, "g") == 2:
+                # a slow consumer: the render stays suspended at a yield while other tasks run
+                await A.gate(gate_tape)
         return ("ok", scrub("".join(map(str, chunks))))
     except asyncio.CancelledError:
         raise
@@ -147,7 +160,7 @@ def _concurrent(tape, P, ae, lc, cache_size, specs, fault, fresh_env_per_task=Fa
                 if i == 0 or shared_env is None:
                     env.globals.update(data)
                 data = {}
-            t = loop.create_task(_render(env, entry, api, data, fault_exc), name=f"r{i}")
+            t = loop.create_task(_render(env, entry, api, data, fault_exc, tape), name=f"r{i}")
             tasks.append((t, ev))
         if fkind == 1:
             victim = tasks[ftask][0]
